@@ -744,6 +744,14 @@ def const_set(tier):
                                 Field([(80, 2)], 'u', arr=(24, 2), stride_explicit=False)], has_builder=True, family='BLDMULTIARR'))
     structs.append(Struct(128, [Field([(0, 2)], 'u', arr=(20, 2), stride_explicit=False), Field([(64, 16)], 'i', arr=(4, 16), stride_explicit=False)],
                           default=1 << 50, has_builder=True, family='BLDMULTIARR'))
+    # custom-typed fields that cover the whole base (and, on native bases, the whole storage integer)
+    for n in (3, 8, 16, 32, 64, 128):
+        fs = [Field([(0, n)], 'c', inner_n=n, family='CUSTFULL')]
+        if n in NE_WIDTHS:
+            fs.append(Field([(0, n)], 'o', enum=ne_enum(n), family='CUSTFULL'))
+        if n <= 3:
+            fs.append(Field([(0, n)], 'e', enum=ex_enum(n), family='CUSTFULL'))
+        structs.append(Struct(n, fs, family='CUSTFULL', default=(1 if n % 16 == 0 else None)))
     # signed / non-contiguous / array samples on small bases
     structs += L.pack(8, L.noncontig(8, [2])[::(40 if tier == 'quick' else 6)], 'NC', per=10)
     structs += L.pack(8, L.arrays_full(8)[::(12 if tier == 'quick' else 2)], 'ARR', per=10)
